@@ -79,6 +79,13 @@ out += ["", "Changes that were missed at first and what was strengthened:", "",
         "  encoder scenarios clear dsp before block; `C08_r4m2` (length of a link taken from a foreign multiplexed stream's last page) - C09 multiplexes a foreign logical stream into some links; `C08_r4m1` (plain seek returns early",
         "  when already at the target, which only a lapped seek can notice) is a C19 matter and C19 reports it. The author of `C03_r4m1` pointed at an unrelated unset-packet read in `ov_pcm_seek_page`; reproduced with a hand-built",
         "  stream (link data starting with continuation pages), fixed in /repo, and C03 now builds such links and dirties the stack before every scripted call.",
+        "  Second batch of round 4 (C01, C02, C05, C06, C07, C09, C10, C16, C18, C19; one C09 change discarded because its author had read /verif's commit log): `C01_r4m1` (15-bit search hint clamped at 16 bits: books with",
+        "  more than 32767 entries) - the big-books profile now draws books of 40 000-150 000 entries; `C01_r4m2` (floor-0 map built only when a curve is rendered: an unused floor is not cleared in the first block of each size) -",
+        "  tolerance is now also per channel (a silent channel next to a loud one must be silent), and the first channel of a stream's first packets has an unused floor half of the time; `C02_r4m1` (block vectors sized by the",
+        "  half-rate flag, transforms by the flag at set-up) - C02 flips the half-rate flag under a live decoder (the quantifier lists halfrate among the calls of any order; the earlier assumption excluded it); `C05_r4m1` / `C05_r4m2`",
+        "  (manager armed although management was switched off by control request; 256 channels accepted) - both configurations added to C05; `C10_r4m1` / `C10_r4m2` (`ov_read` packs the first block after a link change with the old",
+        "  channel count; streaming follows a foreign BOS serial) - C10 reads once per case through the integer interface and multiplexes foreign streams with either BOS order; `C16_r4m1` (a refused repeat of the comment header wipes",
+        "  what was read) - C16 offers a repeated header packet in 30 % of cases.",
         "<!-- AUTOGEN-END -->"]
 p = os.path.join(V, 'DESIGN.md')
 s = open(p).read()
